@@ -117,7 +117,7 @@ func (f *fsm) Snapshot(w io.Writer) error { _, err := w.Write([]byte{byte(f.ops)
 func (f *fsm) Restore(r io.Reader) error  { _, err := io.ReadAll(r); return err }
 func (f *fsm) NeedSnapshot(int) bool      { return false }
 
-const futureTimeout = 400 * time.Millisecond
+const futureTimeout = 1500 * time.Millisecond
 
 // child executes one program and prints one line per call. Exit 0 = no violation seen in-process.
 func child(prog string, nnodes int, dir string) {
@@ -201,7 +201,7 @@ func child(prog string, nnodes int, dir string) {
 			res := fut.Await()
 			el := time.Since(t0)
 			say("submit %d -> err=%v (%dms)", ty, res.Error(), el.Milliseconds())
-			if el > futureTimeout+300*time.Millisecond {
+			if el > futureTimeout+2*time.Second {
 				say("VIOLATION future did not resolve by its timeout: %v", el)
 				bad++
 			}
@@ -216,7 +216,7 @@ func child(prog string, nnodes int, dir string) {
 			res := fut.Await()
 			el := time.Since(t0)
 			say("%s %s -> err=%v (%dms)", f[0], f[1], res.Error(), el.Milliseconds())
-			if el > futureTimeout+300*time.Millisecond {
+			if el > futureTimeout+2*time.Second {
 				say("VIOLATION future did not resolve by its timeout: %v", el)
 				bad++
 			}
@@ -344,9 +344,9 @@ func main() {
 					}
 					verdict = fmt.Sprintf("%v: %s", err, strings.ReplaceAll(tail, "\n", " | "))
 				}
-			case <-time.After(20 * time.Second):
+			case <-time.After(60 * time.Second):
 				cmd.Process.Kill()
-				verdict = "hang: no exit within 20s; output so far: " + strings.ReplaceAll(out.String(), "\n", " | ")
+				verdict = "hang: no exit within 60s; output so far: " + strings.ReplaceAll(out.String(), "\n", " | ")
 			}
 			os.RemoveAll(d)
 			mu.Lock()
